@@ -183,6 +183,9 @@ def r6_resolution_is_contained(ctx):
             i.key = "%s:%s" % (tag, i.key)
             i.rule = "C03.R6"
             out.append(i)
+    from .c14 import r6_resolve_parent
+    for i in r6_resolve_parent(ctx, "C03.R6"):
+        out.append(i)
     return out
 
 
